@@ -18,6 +18,7 @@ VERIF = os.path.dirname(os.path.dirname(os.path.abspath(__file__)))
 
 def main():
     prop, sid = sys.argv[1], sys.argv[2]
+    flavour = FLAVOURS.get(sys.argv[3] if len(sys.argv) > 3 else "", "")
     rec = None
     for l in open(os.path.join(VERIF, "properties.jsonl")):
         r = json.loads(l)
@@ -35,10 +36,18 @@ def main():
         m = re.match(r"\| (%s-\d+) \| (.*?) \| " % prop, l)
         if m:
             prior.append(m.group(2))
-    txt = PROMPT.replace("@WT@", wt).replace("@PROP@", json.dumps(rec, indent=1)).replace(
+    txt = PROMPT.replace("@FLAVOUR@", flavour).replace("@WT@", wt).replace("@PROP@", json.dumps(rec, indent=1)).replace(
         "@PRIOR@", "\n".join("  - " + p for p in prior) if prior else "  (none yet)")
     print(txt)
 
+
+FLAVOURS = {
+    "interleaving": "- For this one, PREFER a change that manifests only under a particular interleaving of goroutines (a window between two statements, a lock released too early or taken too late, a value read before and used after another goroutine's step), if the property has any concurrency in it.\n",
+    "fault": "- For this one, PREFER a change that manifests only when a fault strikes at a particular point: an I/O or storage error, a timeout, a missing or malformed file, a short read, a failed step in the middle of a multi-step operation - the error path is where the property breaks.\n",
+    "two-sites": "- For this one, PREFER a change made of two cooperating edits in different functions or files, each of which looks correct (even an improvement) on its own and only together break the property.\n",
+    "sequence": "- For this one, PREFER a change that needs a multi-step history to manifest (three or more operations in a particular order, state left behind by an earlier operation, a boundary crossed only after many operations), not a single call.\n",
+    "config": "- For this one, PREFER a change that manifests only under an unusual but legal configuration or input shape (a non-default option, an extreme size, a boundary value, a rarely used record type or field combination).\n",
+}
 
 PROMPT = r"""You are helping to evaluate a verification effort for the Go repository facebookincubator/dns (Meta's authoritative DNS server "dnsrocks"). Your job: write ONE realistic, subtle change to the repository's (non-test) source that BREAKS the semantic property given below, while the code still compiles and the existing test suite still passes, plus a demonstration (a Go test) that FAILS with your change and PASSES without it.
 
@@ -52,7 +61,7 @@ Work ONLY inside your own scratch git worktree: @WT@  (the Go module is in @WT@/
 
 - A change a tired maintainer could plausibly make in a refactoring, an "optimisation" or a "clean-up" - not sabotage that announces itself, and not a change ordinary use would expose at once.
 - It must need something SPECIFIC to manifest: a particular interleaving of goroutines, a fault (I/O error, timeout, missing file) at a particular point, a multi-step sequence of operations, an unusual but legal input shape, a particular configuration, or two cooperating sites that each look fine alone. Say precisely what it needs.
-- It must really violate the property as stated (not a neighbouring property), observable through the public behaviour the property talks about.
+@FLAVOUR@- It must really violate the property as stated (not a neighbouring property), observable through the public behaviour the property talks about.
 - Keep it small (typically 1-30 changed lines, one or two files). Do not change any *_test.go file that exists already. Do not add, delete, move or edit any line containing `verifhook.` (no-op instrumentation hooks; leave each of them exactly where it is relative to the statements around it) and do not touch files whose name contains `verif`.
 - It must be DIFFERENT from these changes, which were already written for this property:
 @PRIOR@
